@@ -674,7 +674,6 @@ fn run_shape(c: &ShapeCase) -> Outcome {
         4 => {
             // API mutation of the unhashed area: lengths stay truthful after every operation
             let a = sigs::make(&Spec { kind: SigKind::DocBinary, key: KeyKind::Ed25519V4, hash: 0, object: b"x".to_vec(), notation_len: 0, critical_time: false }).expect("sig");
-            let mut sig = a.sig.clone();
             let mk = |n: usize| Subpacket::regular(SubpacketData::Notation(pgp::packet::Notation { readable: true, name: "n@e".into(), value: vec![b'z'; n].into() })).expect("sp");
             let steps: Vec<(&str, Box<dyn Fn(&mut pgp::packet::Signature) -> pgp::errors::Result<()>>)> = vec![
                 ("push small", Box::new(move |s| s.unhashed_subpacket_push(mk(3)))),
@@ -686,7 +685,22 @@ fn run_shape(c: &ShapeCase) -> Outcome {
                 })),
                 ("remove first", Box::new(|s| s.unhashed_subpacket_remove(0).map(|_| ()))),
             ];
-            for (name, f) in steps {
+            // the signature as made by the API, and as read from every framing of its packet
+            // (the header it was read with is part of the value and must follow the mutations)
+            // (bool: the framing is the minimal one of its format, so the header is canonical too)
+            let mut starts: Vec<(String, bool, pgp::packet::Signature)> = vec![("API-made".into(), true, a.sig.clone())];
+            for form in [frame::LenForm::New1, frame::LenForm::New2, frame::LenForm::New5, frame::LenForm::Old1, frame::LenForm::Old2, frame::LenForm::Old4] {
+                if let Some(framed) = frame::frame(2, &a.sig_body, form) {
+                    if let Ok(pgp::packet::Packet::Signature(s0)) = parse_framed(&framed) {
+                        starts.push((format!("read from {form:?} framing"), matches!(form, frame::LenForm::New1 | frame::LenForm::Old1), s0));
+                    }
+                }
+            }
+            for (origin, minimal, start) in starts {
+            let mut sig = start;
+            for (name, f) in &steps {
+                let name = format!("{name} [{origin}]");
+                let name = &name[..];
                 if let Err(e) = f(&mut sig) {
                     o.push("C05:mutate:operation-failed", format!("{name} (n={}): {e}", c.n));
                     break;
@@ -707,7 +721,10 @@ fn run_shape(c: &ShapeCase) -> Outcome {
                 // what is written parses back to an equal value (packet header included)
                 match parse_framed(&full) {
                     Ok(pgp::packet::Packet::Signature(s3)) => {
-                        if s3 != sig {
+                        // a header read in a wider form than needed is written in the minimal
+                        // form of its format: the values then agree in everything but the header
+                        if !minimal && s3.to_bytes().ok() == sig.to_bytes().ok() {
+                        } else if s3 != sig {
                             o.push(
                                 "C05:mutate:reimport-differs",
                                 format!("after `{name}` (n={}): parse(serialize(sig)) != sig; header in memory {:?}, header after re-import {:?}", c.n, pgp::packet::PacketTrait::packet_header(&sig), pgp::packet::PacketTrait::packet_header(&s3)),
@@ -727,6 +744,52 @@ fn run_shape(c: &ShapeCase) -> Outcome {
                         }
                     }
                     Err(e) => o.push("C05:mutate:mutated-signature-does-not-parse", format!("after `{name}`: {e}")),
+                }
+            }
+            }
+            // secret key packets read from every framing, locked and unlocked in place (the body
+            // grows / shrinks across the 192 and 256 length classes for the larger keys)
+            if c.n == 0 {
+                for kind in [KeyKind::EcdsaP521V4, KeyKind::EcdsaP384V4, KeyKind::Ed25519V4, KeyKind::Ed25519LegacyV4, KeyKind::Rsa2048V4] {
+                    let cert = common::cert(kind, 1);
+                    let body = cert.primary_key.to_bytes().unwrap_or_default();
+                    for form in [frame::LenForm::New1, frame::LenForm::New2, frame::LenForm::New5, frame::LenForm::Old1, frame::LenForm::Old2, frame::LenForm::Old4] {
+                        let Some(framed) = frame::frame(5, &body, form) else { continue };
+                        let Ok(pgp::packet::Packet::SecretKey(k0)) = parse_framed(&framed) else { continue };
+                        let minimal = matches!(form, frame::LenForm::New1 | frame::LenForm::Old1) || (form == frame::LenForm::New2 && body.len() >= 192) || (form == frame::LenForm::Old2 && body.len() >= 256);
+                        let pw = pgp::types::Password::from("framing");
+                        let mut k = k0.clone();
+                        for step in ["set_password", "remove_password"] {
+                            let r = if step == "set_password" { k.set_password_with_s2k(&pw, crate::props::c08::lib_params_pub(&crate::props::c08::PARAM_SET[0], 3)) } else { k.remove_password(&pw) };
+                            let what = format!("{kind:?} secret key read from {form:?} framing, after {step}");
+                            if let Err(e) = r {
+                                o.push("C05:mutate:operation-failed", format!("{what}: {e}"));
+                                break;
+                            }
+                            let kb = k.to_bytes().unwrap_or_default();
+                            let mut full = Vec::new();
+                            let _ = k.to_writer_with_header(&mut full);
+                            if k.write_len() != kb.len() || k.write_len_with_header() != full.len() {
+                                o.push("C05:mutate:announced-length-stale-after-mutation", format!("{what}: write_len {} / {} bytes, with header {} / {}", k.write_len(), kb.len(), k.write_len_with_header(), full.len()));
+                            }
+                            match frame::deframe(&full) {
+                                Ok(fr) if fr.len() == 1 && fr[0].body == kb => {}
+                                _ => o.push("C05:mutate:header-does-not-announce-the-body", what.clone()),
+                            }
+                            match parse_framed(&full) {
+                                Ok(pgp::packet::Packet::SecretKey(k3)) => {
+                                    if !minimal && k3.to_bytes().ok() == k.to_bytes().ok() {
+                                    } else if k3 != k {
+                                        o.push("C05:mutate:reimport-differs", format!("{what}: parse(serialize(key)) != key; header in memory {:?}, header after re-import {:?}", pgp::packet::PacketTrait::packet_header(&k), pgp::packet::PacketTrait::packet_header(&k3)));
+                                    }
+                                }
+                                _ => o.push("C05:mutate:mutated-key-does-not-parse", what.clone()),
+                            }
+                        }
+                        if minimal && k != k0 {
+                            o.push("C05:mutate:lock-then-unlock-is-not-the-original", format!("{kind:?} secret key read from {form:?} framing"));
+                        }
+                    }
                 }
             }
         }
